@@ -12,10 +12,24 @@ def _keval(pid):
     return run
 
 
+def _c04(tier):
+    from . import kprogs
+
+    return kprogs.run_c04(tier)
+
+
+def _c05(tier):
+    from . import kprogs
+
+    return kprogs.run_c05(tier)
+
+
 CHECKS = {
     "C01": _keval("C01"),
     "C02": _keval("C02"),
     "C03": _keval("C03"),
+    "C04": _c04,
+    "C05": _c05,
 }
 
 
